@@ -44,9 +44,11 @@ type world struct {
 	fun    map[string]functionary
 	root   *gen.Cert
 	t2link string
+	t2byC1 string
 }
 
 type Case struct {
+	T2ByC1    bool     `json:"t2_by_c1,omitempty"` // the second step's only link is signed by certificate holder C1 (not authorised there)
 	Mode      string   `json:"mode"` // keys | cert | mixed
 	Threshold int      `json:"threshold"`
 	DSSE      bool     `json:"dsse"`
@@ -121,6 +123,15 @@ func buildWorld(base string, dsse bool) *world {
 	honest("h2", "K2")
 	honest("h3", "K3")
 	honest("hT", "KT")
+	// K1's honest link duplicated under an upper-case spelling of its key id (file name and keyid field)
+	up := strings.ToUpper(K1.ID)
+	if up != K1.ID {
+		p := mk("h1up", shortName("s", up), "K1")
+		gen.EditJSONFile(p, func(doc map[string]any) {
+			doc["signatures"].([]any)[0].(map[string]any)["keyid"] = up
+		})
+		add(item{ID: "h1up", File: shortName("s", up), Signers: []sigDesc{{"K1", false}}})
+	}
 	// K1-signed, then one artifact digit changed
 	p := mk("t1", shortName("s", K1.ID), "K1")
 	gen.EditJSONFile(p, func(doc map[string]any) {
@@ -188,6 +199,10 @@ func buildWorld(base string, dsse bool) *world {
 	md := gen.MustWrap(gen.Link("t2", gen.Arts(), gen.Arts("a", h1), "t2"), dsse, KT.Full)
 	w.t2link = filepath.Join(d, shortName("t2", KT.ID))
 	md.Dump(w.t2link)
+	d = gen.FreshDir(w.dir, "t2c1")
+	md = gen.MustWrap(gen.Link("t2", gen.Arts(), gen.Arts("a", h1), "t2c1"), dsse, C1.Signer)
+	w.t2byC1 = filepath.Join(d, shortName("t2", C1.AsKey.KeyID))
+	md.Dump(w.t2byC1)
 	return w
 }
 
@@ -220,6 +235,11 @@ func (w *world) layout(mode string, threshold int) (intoto.Metadata, map[string]
 			Organizations: []string{"good"}, Roots: []string{"*"}, URIs: []string{"*"}}}
 	}
 	t2 := gen.Step("t2", 1, []string{KT.ID}, allow, allow)
+	if mode != "keys" {
+		// the second step has its own constraint, which none of the catalogue certificates satisfies
+		t2.CertificateConstraints = []intoto.CertificateConstraint{{CommonName: "*", DNSNames: []string{"*"}, Emails: []string{"*"},
+			Organizations: []string{"other"}, Roots: []string{"*"}, URIs: []string{"*"}}}
+	}
 	l := gen.Layout(gen.FarFuture, []intoto.Step{s, t2}, nil, map[string]intoto.Key{K1.ID: K1.Pub, K2.ID: K2.Pub, K3.ID: K3.Pub, KT.ID: KT.Pub})
 	l.RootCas = map[string]intoto.Key{w.root.AsKey.KeyID: w.root.AsKey}
 	owner := gen.Key("ed5")
@@ -227,7 +247,7 @@ func (w *world) layout(mode string, threshold int) (intoto.Metadata, map[string]
 }
 
 // populate materialises a population as a link directory.
-func (w *world) populate(dir string, ids []string) bool {
+func (w *world) populate(dir string, ids []string, t2byC1 ...bool) bool {
 	os.RemoveAll(dir)
 	os.MkdirAll(dir, 0o755)
 	seen := map[string]bool{}
@@ -243,7 +263,11 @@ func (w *world) populate(dir string, ids []string) bool {
 		}
 		gen.CopyFile(filepath.Join(w.dir, id, it.File), filepath.Join(dir, it.File))
 	}
-	gen.CopyFile(w.t2link, filepath.Join(dir, filepath.Base(w.t2link)))
+	if len(t2byC1) > 0 && t2byC1[0] {
+		gen.CopyFile(w.t2byC1, filepath.Join(dir, filepath.Base(w.t2byC1)))
+	} else {
+		gen.CopyFile(w.t2link, filepath.Join(dir, filepath.Base(w.t2link)))
+	}
 	return true
 }
 
@@ -376,6 +400,12 @@ func (w *world) judge(cs Case, accepted bool, orderDependent bool) (sig string) 
 	if orderDependent {
 		od = "order-dependent"
 	}
+	if cs.T2ByC1 {
+		if accepted {
+			return fmt.Sprintf("C02|unsound|second-step-link-by-unauthorised-certificate|%s|%s|%s", cs.Mode, wr, od)
+		}
+		return ""
+	}
 	if accepted && upper < cs.Threshold {
 		return fmt.Sprintf("C02|unsound|%s|%s|%s", cs.Mode, wr, od)
 	}
@@ -481,6 +511,20 @@ func run(c *mcx.Ctx) {
 								fmt.Sprintf("VerifyLinkSignatureThesholds returned a map that %s; population %v mode %s dsse=%v", what, ids, mode, dsse), cs2, what)
 						}
 					}
+					if t == 1 && mode != "keys" && !dsse && len(ids) <= 2 {
+						// variant: step t2 is served only by certificate holder C1, whose certificate satisfies step s but not t2
+						w.populate(popDir, ids, true)
+						cs3 := Case{Mode: mode, Threshold: 1, DSSE: dsse, Items: ids, T2ByC1: true}
+						v3, ex3 := w.explore(c, cs3, popDir, 0)
+						c.Impl(ex3.Executions)
+						c.Case(true)
+						c.Outcome("t2-by-unauthorised-certificate|" + map[bool]string{true: "accepted", false: "rejected"}[v3.acc > 0])
+						if v3.acc > 0 {
+							cs3.Choices = v3.firstAcc
+							c.Violation(w.judge(cs3, true, v3.rej > 0), fmt.Sprintf("accepted although step t2 has no link from a functionary authorised for t2 (its only link is signed by certificate holder C1, authorised for step s only); population for s %v, mode %s", ids, mode), cs3, "accepted t2-by-C1")
+						}
+						w.populate(popDir, ids)
+					}
 					if c.Shard == 2 && c.WantSample() && len(ids) == 3 && t == 2 {
 						c.Sample(map[string]any{"case": cs, "orders_explored": ex.Executions, "accepting": v.acc, "rejecting": v.rej, "upper": upper, "lower": lower})
 					}
@@ -519,8 +563,17 @@ func replay(c *mcx.Ctx, raw json.RawMessage) (string, string) {
 	}
 	w := buildWorld(c.Work, cs.DSSE)
 	popDir := filepath.Join(c.Work, "pop")
-	if !w.populate(popDir, cs.Items) {
+	if !w.populate(popDir, cs.Items, cs.T2ByC1) {
 		return "population not materialisable", ""
+	}
+	if cs.T2ByC1 {
+		layout, keys := w.layout(cs.Mode, cs.Threshold)
+		ok, _ := verify(layout, keys, popDir, mcx.NewReplay(cs.Choices, fullAt))
+		v, _ := w.explore(c, cs, popDir, 0)
+		if ok {
+			return "accepted t2-by-C1", w.judge(cs, true, v.rej > 0)
+		}
+		return "rejected t2-by-C1", ""
 	}
 	if cs.Threshold == 0 {
 		layout, _ := w.layout(cs.Mode, 1)
@@ -548,7 +601,7 @@ func replay(c *mcx.Ctx, raw json.RawMessage) (string, string) {
 func init() {
 	mcx.Register(&mcx.Driver{
 		ID: "C02", Run: run, Replay: replay,
-		Rule: "every population (subset of size <= 3 quick / <= 4 thorough) of a 19-element catalogue of link files for step s (honest by authorised / unlisted / foreign-step keys, tampered, unsigned, misnamed, doubly signed, forged claimed key id, certificate-signed with good/expired/foreign-root/constraint-violating chains, truncated, a layout, a directory) " +
+		Rule: "every population (subset of size <= 3 quick / <= 4 thorough) of a 20-element catalogue of link files for step s (honest by authorised / unlisted / foreign-step keys, tampered, unsigned, misnamed, doubly signed, forged claimed key id, certificate-signed with good/expired/foreign-root/constraint-violating chains, truncated, a layout, a directory) " +
 			"x threshold 1..3 x authorisation {keys, certificate constraint, mixed} x {legacy, DSSE}; for each, InTotoVerify is executed under EVERY iteration order of the per-link counting loop (full permutations; thorough adds one order deviation at every other map range for populations <= 2). " +
 			"A case = one (population, threshold, mode, wrapper), distinct by construction; non-trivial = non-empty population with at least one authorised valid signer. states = populations materialised, transitions = choice points passed.",
 		Assumptions: []string{
